@@ -139,6 +139,22 @@ pub enum Dl {
     Abs(i64),
 }
 
+/// Returns Pending once, after waking its own task.
+pub struct YieldOnce(pub bool);
+
+impl std::future::Future for YieldOnce {
+    type Output = ();
+    fn poll(mut self: std::pin::Pin<&mut Self>, cx: &mut std::task::Context<'_>) -> std::task::Poll<()> {
+        if self.0 {
+            std::task::Poll::Ready(())
+        } else {
+            self.0 = true;
+            cx.waker().wake_by_ref();
+            std::task::Poll::Pending
+        }
+    }
+}
+
 #[derive(Clone, Debug, Serialize, Deserialize, PartialEq, Eq, Hash)]
 pub enum Op {
     /// `outs[out].send(child).await`
@@ -169,6 +185,9 @@ pub enum Op {
     CancelDriver { slot: u8 },
     /// log `cx.time()`
     ReadTime,
+    /// suspend the handler once: a future that wakes its own task and returns Pending on its
+    /// first poll (the handler is resumed by the executor like any woken task)
+    Yield,
     /// panic with a payload kind (0: &'static str, 1: String, 2: custom struct)
     Panic { kind: u8 },
     /// busy-wait until the gate is released
@@ -618,6 +637,10 @@ impl Node {
                     OpRes::Cancel(had)
                 }
                 Op::ReadTime => OpRes::Time(now),
+                Op::Yield => {
+                    YieldOnce(false).await;
+                    OpRes::Other
+                }
                 Op::Panic { kind } => match kind {
                     0 => std::panic::panic_any("scripted panic"),
                     1 => std::panic::panic_any(format!("scripted panic {}", m.id)),
